@@ -386,6 +386,38 @@ def check(run: Run) -> None:
 
     mism = run_items(run, items)
     report_unexplained(run, mism, explained, "corr_arr (Model.Reader/Writer vs arrays of every element kind and length form)")
+    # ---- fixed-size arrays that occupy no bytes still have a fixed element count ----
+    from dissect.cstruct.exceptions import ArraySizeError as _ASE
+    cs_z = structs.load("struct E { };\nstruct main { uint8 a; uint8 z[0]; E e[3]; uint16 g[2][0]; uint8 b; };", compiled=False)
+    for fname, bad in (("z", [7]), ("e", [cs_z.E(), cs_z.E()]), ("g", [[1], [2]])):
+        n_oracle += 1
+        v = cs_z.main(bytes([1, 2]))
+        try:
+            setattr(v, fname, bad)
+            out = v.dumps()
+            failures += 1
+            run.report("C07/wrong-count-accepted", {"definition": "struct E { }; struct main { uint8 a; uint8 z[0]; E e[3]; uint16 g[2][0]; uint8 b; };",
+                       "ops": [{"op": f"assign {fname} a value with another number of elements, dump", "observed": out.hex(), "expected": "ArraySizeError"}]})
+        except _ASE:
+            pass
+        except Exception as e:  # noqa: BLE001
+            failures += 1
+            run.report("C07/wrong-count-accepted", {"definition": "struct E { }; struct main { uint8 a; uint8 z[0]; E e[3]; uint16 g[2][0]; uint8 b; };",
+                       "ops": [{"op": f"assign {fname} a value with another number of elements, dump", "observed": f"{type(e).__name__}: {e}", "expected": "ArraySizeError"}]})
+
+    # ---- recorded finding: a count that is negative already at definition time ----
+    n_oracle += 1
+    try:
+        cs_n = structs.load("#define N 3\nstruct main { uint8 a; uint8 x[N - 5]; uint8 b; };", compiled=False)
+        v = cs_n.main(bytes([1, 2, 3]))
+        got = (len(v.x), v.b, len(cs_n.main))
+    except Exception as e:  # noqa: BLE001
+        got = f"{type(e).__name__}: {e}"
+    if got != (0, 2, 2):
+        failures += 1
+        run.report("C07/negative-count-at-definition" if isinstance(got, str) and got.startswith("ValueError: __len__() should return >= 0") else "C07/negative-count",
+                   {"definition": "#define N 3 / struct main { uint8 a; uint8 x[N - 5]; uint8 b; };", "ops": [{"op": "load + parse 010203", "observed": repr(got), "expected": "(0, 2, 2): x holds max(0, N - 5) = 0 elements"}]})
+
     F.obligation_fallback(run, ok, bool(failures or mism))
     F.finish_cov(run, items, mism,
                  "templates: every element kind {ints 1..8 bytes, int24/uint48, char, wchar, enum over uint8/uint24, flag, uleb/ileb128, struct, float} x "
